@@ -76,7 +76,7 @@ def set_rules(ctx):
     fn = ast.fn('is_filesystem_safe', 'scheduler/inner_locustdb.rs')
     cl = [c for c in find(fn, 'closure')]
     ctx.require(len(cl) == 1, 'SET-1: is_filesystem_safe has no single char closure')
-    var = cl[0]['params'][0].get('name')
+    var = cl[0]['params'][0].get('name') or (cl[0]['params'][0].get('pat') or {}).get('name')
     acc = [c for c in FORBIDDEN if eval_char_pred(cl[0]['body'], var, c)]
     ctx.check('SET-1', 'is_filesystem_safe|excludes-separators', not acc,
               'accepted forbidden characters: %r' % acc, 'src/scheduler/inner_locustdb.rs:%d' % cl[0]['l'])
@@ -98,7 +98,21 @@ def set_rules(ctx):
     ret = [m for m in find(fn, 'mcall') if m['method'] == 'retain']
     ctx.require(len(ret) == 1, 'SET-2: sanitize_table_name has no retain()')
     cl = find(ret[0], 'closure')
-    var = cl[0]['params'][0].get('name')
+    if not cl:
+        # `let is_allowed = |c: char| ..; name.retain(is_allowed)` or a fn item of the same file
+        arg = (ret[0].get('args') or [{}])[0]
+        nm = (arg.get('path') or '').split('::')[-1] if arg.get('k') == 'path' else None
+        if nm:
+            for st in find(fn, 'let'):
+                pat = st.get('pat') or {}
+                if pat.get('name') == nm and st.get('init'):
+                    cl = find(st['init'], 'closure') or ([st['init']] if st['init'].get('k') == 'closure' else [])
+            if not cl:
+                for (p_, q_, n_) in ast.fns:
+                    if p_.endswith('disk_store/storage.rs') and q_.split('::')[-1] == nm and n_.get('body'):
+                        cl = [{'params': n_.get('params', []), 'body': n_['body'], 'l': n_.get('l', 0)}]
+    ctx.require(cl, 'SET-2: the predicate given to retain() is neither a closure nor a local closure / fn of the file')
+    var = cl[0]['params'][0].get('name') or (cl[0]['params'][0].get('pat') or {}).get('name')
     acc = [c for c in FORBIDDEN if eval_char_pred(cl[0]['body'], var, c)]
     ctx.check('SET-2', 'sanitize_table_name|excludes-separators', not acc,
               'kept forbidden characters: %r' % acc, 'src/disk_store/storage.rs:%d' % cl[0]['l'])
@@ -142,6 +156,17 @@ def set_rules(ctx):
             a0 = mc['args'][0]
             if a0.get('k') == 'lit' and 'int' in a0:
                 lims.append(int(a0['int']))
+            elif a0.get('k') == 'path':
+                # a named constant of the function or the file
+                cn = a0['path'].split('::')[-1]
+                for n_ in walk(fn):
+                    if isinstance(n_, dict) and n_.get('k') in ('const', 'local_const') and n_.get('name') == cn:
+                        lims += [int(x['int']) for x in walk(n_) if isinstance(x, dict) and x.get('k') == 'lit' and 'int' in x]
+                try:
+                    cdef = ast.const(cn, 'disk_store/storage.rs')
+                    lims += [int(x['int']) for x in walk(cdef['expr']) if isinstance(x, dict) and x.get('k') == 'lit' and 'int' in x]
+                except Exception:
+                    pass
     ctx.check('SET-2', 'sanitize_table_name|length-bound', bool(lims) and max(lims) + 2 + 64 <= 255,
               'cleaned name truncated to %s bytes (+ 2 separators + 64 hex digest <= 255)' % lims,
               'src/disk_store/storage.rs')
